@@ -707,10 +707,22 @@ impl Context {
         code: &'a str,
         code_source: CodeSource,
     ) -> Result<(Vec<typed_ast::Statement<'a>>, InterpreterResult)> {
-        let statements = self
+        // Remember which modules have been imported so far. If this input fails at any
+        // stage, everything it defined is rolled back below, so the modules it imported
+        // must be importable again. Otherwise a later `use` of such a module would be
+        // silently ignored, leaving its definitions unavailable.
+        let imported_modules_old = self.resolver.imported_modules.clone();
+
+        let result = self
             .resolver
             .resolve(code, code_source.clone())
-            .map_err(NumbatError::ResolverError)?;
+            .map_err(NumbatError::ResolverError);
+
+        if result.is_err() {
+            self.resolver.imported_modules = imported_modules_old.clone();
+        }
+
+        let statements = result?;
 
         let prefix_transformer_old = self.prefix_transformer.clone();
 
@@ -730,6 +742,7 @@ impl Context {
             //     >>> fn f(h_) = 1     # <-- here we want to use 'f' again
             //
             self.prefix_transformer = prefix_transformer_old.clone();
+            self.resolver.imported_modules = imported_modules_old.clone();
         }
 
         let transformed_statements = result?;
@@ -754,6 +767,7 @@ impl Context {
             //
             self.prefix_transformer = prefix_transformer_old.clone();
             self.typechecker = typechecker_old.clone();
+            self.resolver.imported_modules = imported_modules_old.clone();
 
             if self.load_currency_module_on_demand
                 && let Err(NumbatError::TypeCheckError(TypeCheckError::UnknownIdentifier(
@@ -828,6 +842,7 @@ impl Context {
             self.prefix_transformer = prefix_transformer_old;
             self.typechecker = typechecker_old;
             self.interpreter = interpreter_old;
+            self.resolver.imported_modules = imported_modules_old;
         }
 
         let result = result.map_err(|err| NumbatError::RuntimeError(*err))?;
